@@ -164,8 +164,6 @@ h!(write_read_le, write_read(false, false));
 h!(write_read_generic_be, write_read(true, true));
 h!(write_read_generic_le, write_read(false, true));
 h!(short_sink_be, short_sink(true, false));
-h!(short_sink_le, short_sink(false, false));
 h!(short_sink_generic_be, short_sink(true, true));
-h!(short_sink_generic_le, short_sink(false, true));
 h!(complete_be, complete(true));
 h!(complete_le, complete(false));
